@@ -55,6 +55,11 @@ def rstrip_char(it, s, ch):
     return r
 
 
+def _other_re(pat):
+    from .values import _other
+    return _other('const_' + ''.join(ch if ch.isalnum() else '_' for ch in pat)[:60] + '_%d' % (hash(pat) % 100000))
+
+
 def install(lib):
     b = lib.builtins
     lib.modules.setdefault('os.path', {})
@@ -1055,6 +1060,68 @@ def install(lib):
     for nm in dir(_errno):
         if nm.startswith('E'):
             er[nm] = VInt(getattr(_errno, nm))
+
+    # ------------------------------------------------------------ re (A-re)
+    rem = lib.modules.setdefault('re', {})
+    rem['U'] = VInt(32)
+    rem['UNICODE'] = VInt(32)
+
+    def _re_compile(it, a, k, n):
+        pat = conc(it.ctx.force(a[0]))
+        r = VOpaque(_other_re(pat), 'other')
+        r.pattern = pat
+
+        def sub(itp, aa, kk, nn):
+            hook = itp.engine.re_sub_hook
+            if hook is None:
+                raise Unsupported('re.sub without a model for pattern %r' % pat, nn)
+            return hook(itp, pat, aa[0], aa[1], nn)
+        sf = VFunc('re.sub', sub)
+        sf.bind = False
+        r.attrs = {'sub': sf}
+        return r
+    rem['compile'] = VFunc('re.compile', _re_compile)
+
+    # ------------------------------------------------------------ datetime (A-datetime)
+    dtm = lib.modules.setdefault('datetime', {})
+    dtcls = VOpaque(_other_re('datetime.datetime'), 'other')
+
+    def _strptime(it, a, k, n):
+        s_ = it.ctx.force(a[0])
+        fmt = conc(it.ctx.force(a[1]))
+        it.engine.assumed.add('A-datetime: strptime as partial uninterpreted function strptime_ok/strptime_val per format')
+        tag = ''.join(ch if ch.isalnum() else '_' for ch in fmt)
+        ok = ufun('strptime_ok_' + tag, S, B)
+        val = ufun('strptime_val_' + tag, S, I)
+        if it.ctx.branch(ok(s_.t), 'strptime-ok'):
+            from .values import _other
+            return VOpaque(_other('datetime', val(s_.t)), 'other')
+        it.raise_('ValueError', line=n.lineno)
+    f1 = VFunc('datetime.strptime', _strptime)
+    f1.bind = False
+
+    def _utcnow(it, a, k, n):
+        from .values import _other
+        it.engine.assumed.add('A-datetime: utcnow() is a non-decreasing clock')
+        c = it.ctx.ghost.get('clock', 0)
+        it.ctx.ghost['clock'] = c + 1
+        return VOpaque(_other('datetime', z3.Int('clock!%d' % c)), 'other')
+    f2 = VFunc('datetime.utcnow', _utcnow)
+    f2.bind = False
+    dtcls.attrs = {'strptime': f1, 'utcnow': f2}
+    dtm['datetime'] = dtcls
+
+    hl = lib.modules.setdefault('hashlib', {})
+    _kk = z3.Const('k', S)
+    hl['algorithms_available'] = lambda it, node: VCell(
+        VSet(z3.Lambda([_kk], ufun('hashlib_available', S, B)(_kk)), Str), 'set')
+
+    def _hashlib_new(it, a, k, n):
+        nm = it.ctx.force(a[0])
+        it.engine.assumed.add('A-hashlib: hashlib.new(n) implements the algorithm named n (opaque object hashlib_new(n))')
+        from .values import _other
+        return VOpaque(_other('hashlib_new', nm.t), 'other')
+    hl['new'] = VFunc('hashlib.new', _hashlib_new)
 
     lg = lib.modules.setdefault('logging', {})
     for nm in ('debug', 'info', 'warning', 'error', 'critical'):
